@@ -9,7 +9,7 @@ HOOK_COMMITS = subprocess.run(
 CHECKS = {
  "C07": dict(engine="table", technique="stateful property-based testing (proptest op histories + invariant after every step)",
    text="Exploration: thousands of generated operation histories per run over the real KBucketsTable, all structural invariants and pending life-cycle transition rules evaluated after every elementary operation; failures shrink to a minimal op list. Finite sample of an infinite space: no proof.",
-   note="Trusted: the crate's non-mutating accessors used for observation; pending deadlines only in the regimes 0 / 1h+forced expiry (guarded hook). Keys are L^d with crafted d (all bucket classes incl. 0..3). Thorough tier adds a coverage-guided libFuzzer campaign over byte-decoded op histories (same interpreter and invariants).",
+   note="Trusted: the crate's non-mutating accessors used for observation; pending deadlines only in the regimes 0 / 1h+forced expiry (guarded hook). Keys are L^d with crafted d (all bucket classes incl. 0..3). Thorough tier adds a coverage-guided libFuzzer campaign over byte-decoded op histories (same interpreter and invariants). One case in 151 is a service-engine companion: the table a real Discv5 builds from a configuration with incoming_bucket_limit 0..16 is checked against the configured limit after every session report.",
    ref="7.2 / C07"),
  "C08": dict(engine="table", technique="property-based testing against a reference oracle (sorted full scan with independent XOR arithmetic)",
    text="Exploration: generated tables (incl. buckets 0..3 and pending nodes) and targets in every log2 class 0..256; every closest_* output compared element by element with the sorted scan, nodes_by_distances compared with the scan. Found the bucket-0 double visit on the pinned tree (fixed).",
@@ -72,7 +72,7 @@ CHECKS["C02"] = dict(engine="wire", technique="property-based fault injection (d
 
 CHECKS["C19"] = dict(engine="wire", technique="stateful property-based testing over long traffic schedules; history invariant on (key, nonce) pairs via trial decryption",
    text="Exploration: generated long schedules (bursts of requests in one session, retransmissions, re-keying from both sides, re-encryption of in-flight requests, record-less contacts); every emitted datagram is attributed to the session key that authenticates it and no two different datagrams under one key may share a nonce; id-nonces of WHOAREYOUs never repeat.",
-   note="Detects structural reuse only (not reduced entropy below the birthday bound). Keys come from the guarded probe.",
+   note="Detects structural reuse only (not reduced entropy below the birthday bound). Keys come from the guarded probe. One case in 401 is a long-session companion (hook VSession): one Session encrypts 150 000..400 000 (thorough ..1 200 000) different messages under one key; a nonce space of 2^32 or less shows there.",
    ref="7.5 / C19")
 
 CHECKS["C15"] = dict(engine="wire", technique="property-based testing over exchange/idle schedules with measured real idle periods (one-directional expiry oracle) + LRU ledger",
@@ -82,7 +82,7 @@ CHECKS["C15"] = dict(engine="wire", technique="property-based testing over excha
 
 CHECKS["C14"] = dict(engine="svc", technique="property-based testing of the real service behind a scripted handler: generated table contents and requests, validity predicates over the emitted responses",
    text="Exploration: generated tables (incl. many 300-byte records) and FINDNODE/PING requests (all distance-list shapes, requester stored or not, ports incl. 0, record changes in between); every emitted NODES/PONG is checked for id, destination, total, membership/distance/no-requester/no-duplicates, count range, wire size <= 1280 through the real codecs, and the PONG's seq and observed address.",
-   note="Scripted handler hook; table filled via add_enr; selection among surplus eligible entries is unspecified, so a count range is asserted.",
+   note="Scripted handler hook; table filled via add_enr; selection among surplus eligible entries is unspecified, so a count range is asserted. Four cases in 67 are a pipe companion (the NODES packets of a real service are handed to a real handler holding a session; each must appear on the wire once, <= 1280 bytes), one in 67 a wire companion with NAT requesters.",
    ref="7.4 / C14")
 
 CHECKS["C20"] = dict(engine="svc", technique="stateful property-based testing of the TALK request life cycle (respond / drop / hold / other thread / full or absent event stream / shutdown) with a per-request ledger",
@@ -101,8 +101,8 @@ CHECKS["C12"] = dict(engine="svc", technique="stateful property-based testing of
    ref="7.4 / C12")
 
 CHECKS["C17"] = dict(engine="svc", technique="stateful property-based testing of the PONG-to-record path of the real service with a vote ledger",
-   text="Exploration: generated vote scripts (3..14 voters, minimum 2..6, 2..4 candidate addresses incl. IPv6 in dual stack, voters changing votes across ping rounds, failed pings); whenever the local record's UDP socket changes the ledger must show >= minimum current votes, a unique maximum with the clear-majority margin (all-eligible scripts), the triggering input must be a PONG, seq must grow, the signature must verify and SocketUpdated must be emitted.",
-   note="Votes are per address family, as the record's v4 and v6 sockets are separate. Vote expiry (IpVote reads the real clock) is explored in a separate regime (one case in 41: 80 ms vote duration, measured real idle periods) with a one-directional claim only: an update needs >= minimum peers whose naming of the address is not certainly expired.",
+   text="Exploration: generated vote scripts (3..24 voters, minimum 2..6, 2..4 candidate addresses incl. IPv6 in dual stack, voters changing votes across ping rounds, failed pings); whenever the local record's UDP socket changes the ledger must show >= minimum current votes, a unique maximum with the clear-majority margin (all-eligible scripts), the triggering input must be a PONG, seq must grow, the signature must verify and SocketUpdated must be emitted.",
+   note="Votes are per address family, as the record's v4 and v6 sockets are separate. Vote expiry (IpVote reads the real clock) is explored in a separate regime (one case in 41: 80 ms vote duration, measured real idle periods) with a one-directional claim only: an update needs >= minimum peers whose naming of the address is not certainly expired. Six cases in 89 are a vote-table companion (hook VIpVote): blocks of up to 700 voters on the vote table alone, the majority it names is checked against the ledger (minimum, unique maximum, exact 70% rule).",
    ref="7.4 / C17")
 
 NOT_YET = {}
